@@ -114,6 +114,7 @@ type dtFrame struct {
 	fn   *ssa.Function
 	env  map[ssa.Value]absVal
 	args []absVal
+	mem  map[string]absVal // local variable cells (allocs): last stored value
 }
 
 // DecisionTable enumerates the leaves of fn's decision tree. args are the abstract parameters.
@@ -191,10 +192,20 @@ func (r *dtRun) call(fn *ssa.Function, args []absVal, depth int, start *ssa.Basi
 		r.fail = "inlining depth exceeded at " + fn.String()
 		return nil, ""
 	}
-	fr := &dtFrame{fn: fn, env: map[ssa.Value]absVal{}, args: args}
+	fr := &dtFrame{fn: fn, env: map[ssa.Value]absVal{}, args: args, mem: map[string]absVal{}}
 	b := fn.Blocks[0]
 	if start != nil {
 		b = start
+		// parameters spilled to cells in the entry block (captured by closures) keep their value
+		for _, ins := range fn.Blocks[0].Instrs {
+			if st, ok := ins.(*ssa.Store); ok {
+				if a, ok := st.Addr.(*ssa.Alloc); ok {
+					if p, ok := st.Val.(*ssa.Parameter); ok && paramIndex(p) < len(args) {
+						fr.mem["alloc:"+a.Name()] = args[paramIndex(p)]
+					}
+				}
+			}
+		}
 	}
 	var prev *ssa.BasicBlock
 	visited := map[*ssa.BasicBlock]int{}
@@ -258,6 +269,10 @@ func (r *dtRun) call(fn *ssa.Function, args []absVal, depth int, start *ssa.Basi
 				return out, ""
 			case *ssa.Panic:
 				return []absVal{{K: avUnknown, Tag: "panic"}}, "panic"
+			case *ssa.Store:
+				if a, ok := x.Addr.(*ssa.Alloc); ok {
+					fr.mem["alloc:"+a.Name()] = r.eval(fr, x.Val)
+				}
 			case ssa.Value:
 				fr.env[x] = r.evalInstr(fr, x, depth)
 			}
@@ -308,6 +323,9 @@ func (r *dtRun) eval(fr *dtFrame, v ssa.Value) absVal {
 		return absVal{K: avObject, Obj: "global:" + x.Name()}
 	case *ssa.Function:
 		return absVal{K: avNonNil, Tag: "func:" + fnName(x)}
+	case *ssa.Alloc:
+		// a cell defined outside the interpreted region
+		return absVal{K: avObject, Obj: "alloc:" + x.Name()}
 	}
 	return absVal{}
 }
@@ -356,6 +374,9 @@ func (r *dtRun) evalInstr(fr *dtFrame, v ssa.Value, depth int) absVal {
 				return r.fieldVal(a.Obj[:i], a.Obj[i+1:], x.Type())
 			}
 			if a.K == avObject {
+				if v, ok := fr.mem[a.Obj]; ok {
+					return v
+				}
 				// load of a whole object (struct copy / pointer stored in a global)
 				return absVal{K: avObject, Obj: a.Obj}
 			}
